@@ -7,7 +7,7 @@ ENGINE = 'E2 explicit-state BFS to fixpoint over the real persistent dictionarie
 LEVEL = 'model_checking'
 
 KEYS = [b'k1', b'k2', b'\x00', b'']
-VALS = {'v1': b'one', 'v2': b'', 'v3': bytearray(b'\x03\x00'), 'str': 'text', 'int': 5, 'none': None, 'list': [b'x']}
+VALS = {'v1': b'one', 'v2': b'', 'v3': bytearray(b'\x03\x00'), 'str': 'text', 'int': 5, 'none': None, 'list': [b'x'], 'mview': memoryview(b'mv')}
 GOOD = ('v1', 'v2', 'v3')
 
 
